@@ -521,63 +521,59 @@ func checkGetInfo(e *Env, p *load.Program) {
 		r.Unknown("E4.getinfo", "GetInfo", "", "function GetInfo not found")
 		return
 	}
-	var lk *ssa.Lookup
-	n := 0
+	var lks []*ssa.Lookup
 	for _, b := range fn.Blocks {
 		for _, in := range b.Instrs {
-			if l, ok := in.(*ssa.Lookup); ok && l.CommaOk {
+			if l, ok := in.(*ssa.Lookup); ok {
 				if g, ok := derefGlobal(l.X); ok && g.Name() == "arches" {
-					lk = l
-					n++
+					lks = append(lks, l)
 				}
 			}
 		}
 	}
-	if lk == nil || n != 1 {
-		r.Unknown("E4.getinfo", "GetInfo/lookup", p.Pos(fn.Pos()), "expected exactly one comma-ok lookup in `arches`")
+	if len(lks) == 0 {
+		r.Unknown("E4.getinfo", "GetInfo/lookup", p.Pos(fn.Pos()), "no lookup in `arches` found")
 		return
 	}
-	// key origin
-	keyOK := true
-	kd := ""
-	var visit func(v ssa.Value, depth int)
-	visit = func(v ssa.Value, depth int) {
-		if depth > 4 {
-			keyOK = false
-			return
-		}
-		switch x := v.(type) {
-		case *ssa.Phi:
-			for _, ed := range x.Edges {
-				visit(ed, depth+1)
-			}
-		case *ssa.Const:
-			if s, ok := flow.ConstString(x); !ok || s != p.GOARCH {
+	// every lookup key: strings.ToLower(name), runtime.GOARCH, or the name itself (the table's keys are lower-case - checked with
+	// the alias classes - so a verbatim hit implies the name was lower-case already)
+	for i, lk := range lks {
+		keyOK := true
+		kd := ""
+		var visit func(v ssa.Value, depth int)
+		visit = func(v ssa.Value, depth int) {
+			if depth > 4 {
 				keyOK = false
-				kd = "constant key is not runtime.GOARCH"
+				return
 			}
-		case *ssa.Call:
-			if !flow.CalleeIs(x, "strings", "ToLower") || len(x.Call.Args) != 1 || x.Call.Args[0] != fn.Params[0] {
+			switch x := v.(type) {
+			case *ssa.Phi:
+				for _, ed := range x.Edges {
+					visit(ed, depth+1)
+				}
+			case *ssa.Parameter:
+				if x != fn.Params[0] {
+					keyOK = false
+					kd = "key is another parameter"
+				}
+			case *ssa.Const:
+				if s, ok := flow.ConstString(x); !ok || s != p.GOARCH {
+					keyOK = false
+					kd = "constant key is not runtime.GOARCH"
+				}
+			case *ssa.Call:
+				if !flow.CalleeIs(x, "strings", "ToLower") || len(x.Call.Args) != 1 || x.Call.Args[0] != ssa.Value(fn.Params[0]) {
+					keyOK = false
+					kd = "key is computed by " + calleeName(x) + ", not by strings.ToLower(name)"
+				}
+			default:
 				keyOK = false
-				kd = "key is not strings.ToLower(name)"
-			}
-		default:
-			keyOK = false
-			kd = fmt.Sprintf("key comes from %T", v)
-		}
-	}
-	visit(lk.Index, 0)
-	r.Check(keyOK, "E4.getinfo", "GetInfo/key", p.Pos(lk.Pos()), "lookup key is strings.ToLower(name) or runtime.GOARCH: any letter case resolves like its lower-case spelling", "GetInfo: "+kd)
-
-	var found, val ssa.Value
-	for _, ref := range *lk.Referrers() {
-		if ex, ok := ref.(*ssa.Extract); ok {
-			if ex.Index == 1 {
-				found = ex
-			} else {
-				val = ex
+				kd = fmt.Sprintf("key comes from %T", v)
 			}
 		}
+		visit(lk.Index, 0)
+		r.Check(keyOK, "E4.getinfo", fmt.Sprintf("GetInfo/key#%d", i), p.Pos(lk.Pos()), "lookup key is strings.ToLower(name), runtime.GOARCH or the name itself: any letter case resolves like its lower-case spelling",
+			"GetInfo: "+kd+": a name can resolve to another architecture's table than its lower-case spelling (aliases and letter cases no longer agree)")
 	}
 	rets := flow.Returns(fn)
 	nSucc := 0
@@ -593,30 +589,41 @@ func checkGetInfo(e *Env, p *load.Program) {
 		}
 		nSucc++
 		conds := flow.DomConds(ret.Block())
-		fpol, fok := flow.CondHolds(conds, found)
-		lenOK := false
-		for _, c := range conds {
-			b, ok := c.V.(*ssa.BinOp)
-			if !ok {
+		good := false
+		detail := ""
+		for _, lk := range lks {
+			if !lk.CommaOk {
 				continue
 			}
-			if isLenOfField(b.X, val, "SyscallNames") {
-				if k, isk := flow.ConstInt(b.Y); isk && k == 0 {
-					if (b.Op == token.EQL && !c.Pol) || (b.Op == token.NEQ && c.Pol) || (b.Op == token.GTR && c.Pol) || (b.Op == token.LEQ && !c.Pol) {
-						lenOK = true
-					}
-				}
-				if k, isk := flow.ConstInt(b.Y); isk && k == 1 {
-					if (b.Op == token.GEQ && c.Pol) || (b.Op == token.LSS && !c.Pol) {
-						lenOK = true
+			var found, val ssa.Value
+			for _, ref := range *lk.Referrers() {
+				if ex, ok := ref.(*ssa.Extract); ok {
+					if ex.Index == 1 {
+						found = ex
+					} else {
+						val = ex
 					}
 				}
 			}
+			if val == nil || flow.RetResults(ret)[0] != val {
+				continue
+			}
+			fpol, fok := flow.CondHolds(conds, found)
+			lenOK := false
+			for _, c := range conds {
+				pr, ok := flow.AsIntPred(c.V, c.Pol)
+				if ok && isLenOfField(pr.X, val, "SyscallNames") && pr.NonZero() {
+					lenOK = true
+				}
+			}
+			detail = fmt.Sprintf("found-edge=%v len-guard=%v", fok && fpol, lenOK)
+			if fok && fpol && lenOK {
+				good = true
+			}
 		}
-		resOK := flow.RetResults(ret)[0] == val
-		r.Check(fok && fpol && lenOK && resOK && flow.IsNilConst(flow.RetResults(ret)[1]), "E4.getinfo", key+"/success", p.Pos(ret.Pos()),
+		r.Check(good && flow.IsNilConst(flow.RetResults(ret)[1]), "E4.getinfo", key+"/success", p.Pos(ret.Pos()),
 			"the looked-up Info is returned only on the `found` edge and with a non-empty SyscallNames table: table-less architectures are unsupported",
-			fmt.Sprintf("GetInfo can return an Info without `found && len(SyscallNames) > 0` (found-edge=%v len-guard=%v returns-lookup=%v)", fok && fpol, lenOK, resOK))
+			"GetInfo can return an Info that is not a lookup result under `found && len(SyscallNames) > 0` ("+detail+")")
 	}
 	r.Floor("E4.getinfo(success returns)", nSucc, 1)
 }
